@@ -79,6 +79,10 @@ def tool(policy_file, access_file, apply_rule, is_admin=False,
         access_data['project_id'] = access_data['project']['id']
     if access_data.get('system'):
         access_data['system_scope'] = 'all'
+        # Enforcer.enforce mirrors system_scope into the 'system' attribute
+        # before evaluating a rule; do the same so that the verdicts match
+        # what the library decides.
+        access_data['system'] = access_data['system_scope']
     access_data['is_admin'] = is_admin
 
     with open(policy_file, "rb", 0) as p:
